@@ -53,6 +53,7 @@ Step(e) ==
       [] e.op = "Validate" -> Check(e.n)
       [] e.op = "ValidateCollect" -> CheckCollect(e.n)
       [] e.op = "CopyTree" -> CopyTree(e.src, e.n)
+      [] e.op = "AssignFrom" -> AssignFrom(e.src, e.n, <<e.p, e.k>>)
       [] e.op = "Query" -> Query(e.n)
       [] e.op = "RoundTrip" -> RoundTrip(e.n, e.fmt)
 
